@@ -461,11 +461,6 @@ def _state(sm):
 
 # ----------------------------------------------------------------------------- expected / model
 
-def _canon_spec(outcome, tokens):
-    """spec outcomes carry descriptor strings as scalars -> tokens"""
-    return outcome
-
-
 def spec_tok(tokens):
     """`spec_call` over offered kwargs whose values are descriptors: map them to tokens first"""
     def f(sig, args, off):
@@ -480,12 +475,8 @@ def expected_frames(scn, tokens):
     frames = {}
     for tag, ev, args, ukw, rows in run:
         for cid, ph, off, outc, corner in rows:
-            frames.setdefault(cid, []).append(_strip_z(outc))
+            frames.setdefault(cid, []).append(outc)
     return frames, run
-
-
-def _strip_z(s):
-    return s
 
 
 def model_lines(scn, tokens):
